@@ -115,6 +115,14 @@ func vRunSchedule(r *vRunner, initial []byte, hasFile bool, calls []vSchedCall, 
 				}
 				outcomes[g] = append(outcomes[g], oc)
 			}
+			// the goroutine's test ends here: its Cleanup functions run (as testing.T does) while the other
+			// tests may still be between two of their calls
+			if t := ts[g]; t != nil {
+				for i := len(t.cleanups) - 1; i >= 0; i-- {
+					t.cleanups[i]()
+				}
+				t.cleanups = nil
+			}
 			ctl.events <- vEvent{g: g, done: true}
 		}()
 	}
